@@ -13,9 +13,12 @@
    (4) C01_sign: for every digest h = H(m) and every list of >= t distinct signers the Lagrange aggregate of the partial
        signatures h^sk_i verifies under tpk (bilinear pairing as an ideal object, TSS.Alg.BLS).
    Orchestrated signing is a pass-through: every participant returns what its backend returns for the digest it was given
-   (TSS.Orch.SessionFacts / Props/C11.v, C12.v).  Its LIVENESS is _partial: in the session model a signing session completes
-   when every synchroniser query is answered; the code does not guarantee that in loud mode (known finding C01-a: a signer
-   that finished the pre-signing synchronisation unregisters the topic and drops the query of a slower signer).
+   (TSS.Orch.SessionFacts / Props/C11.v, C12.v).  Its LIVENESS is not a theorem of this file
+   (_partial here): in the session model a signing session completes when every synchroniser query is answered.  The pinned
+   code did not guarantee that in loud mode (former finding C01-a: a signer that finished the pre-signing synchronisation
+   unregistered the topic and dropped the query of a slower signer); the gap was closed at the disc level (/repo 2681e65: a
+   member completes only after every other member has queried it; the disc engine proves teardown safety with C07), and the
+   full-stack runs of this property's check treat every fault-free signing failure as a violation.
    The safety clauses (identical material, signatures verify) are proved without exception. *)
 From Coq Require Import List ZArith.
 Require Import TSS.Base.Base TSS.Alg.DKG TSS.Alg.DKGSystem TSS.Corr.DKGCorr.
